@@ -68,6 +68,16 @@ class Drop:
         self.cls, self.fields = cls, dict(fields)
 
 
+class _Top:
+    """a value that is not a function of the configuration (depends on the image, the grid's spacing, the candidate …)"""
+
+    def __repr__(self):
+        return "<data-dependent>"
+
+
+TOP = _Top()
+
+
 class Interp:
     def __init__(self, ctx, fi, env):
         self.ctx, self.fi, self.env = ctx, fi, dict(env)
@@ -93,9 +103,13 @@ class Interp:
                 return Cls(base.cls)
             if isinstance(base, dict) and n.attr in base:
                 return base[n.attr]
+            if base is TOP or (isinstance(base, dict) and "__isa__" in base) or (isinstance(base, Drop) and n.attr != "__class__"):
+                return TOP  # a measured quantity (grid spacing, candidate radius …): not part of the request
             raise Unsupported(f"CLASSSEL: attribute `{d}` not interpretable", rule="CLASSSEL")
         if isinstance(n, ast.Compare) and len(n.ops) == 1:
             l, r, op = self.ev(n.left), self.ev(n.comparators[0]), n.ops[0]
+            if l is TOP or r is TOP:
+                raise Unsupported(f"CLASSSEL: test `{U(n)}` depends on a value that is not part of the request", rule="CLASSSEL")
             if isinstance(op, ast.Is):
                 return l is r if r is None else l == r
             if isinstance(op, ast.IsNot):
@@ -149,6 +163,13 @@ class Interp:
                 raise Unsupported(f"CLASSSEL: isinstance on `{U(n.args[0])}`", rule="CLASSSEL")
             if f.endswith("np.zeros") or f.endswith("numpy.zeros") or f == "zeros":
                 return ("zeros", self.ev(n.args[0]))
+            if f in ("int", "float", "min", "max", "round", "abs", "len") and n.args and not n.keywords:
+                vals = [self.ev(a) for a in n.args]
+                if any(v is TOP for v in vals):
+                    return TOP
+                if all(isinstance(v, (int, float)) and not isinstance(v, bool) for v in vals):
+                    return {"int": int, "float": float, "min": min, "max": max, "round": round, "abs": abs}.get(f, lambda *a: TOP)(*vals)
+                return TOP
             if isinstance(n.func, ast.Attribute) and n.func.attr == "from_droplet":
                 target = self.ev(n.func.value)
                 src = self.ev(n.args[0])
@@ -166,6 +187,8 @@ class Interp:
 
     def arith(self, op, l, r, n):
         num = lambda v: isinstance(v, (int, float)) and not isinstance(v, bool)
+        if (l is TOP and (num(r) or r is TOP)) or (r is TOP and num(l)):
+            return TOP
         if num(l) and num(r):
             try:
                 if isinstance(op, ast.Add):
@@ -178,6 +201,10 @@ class Interp:
                     return l // r
                 if isinstance(op, ast.Mod):
                     return l % r
+                if isinstance(op, ast.Div):
+                    return l / r
+                if isinstance(op, ast.Pow):
+                    return l ** r
             except ZeroDivisionError:
                 raise Raised("ZeroDivisionError")
         raise Unsupported(f"CLASSSEL: arithmetic `{U(n)[:50]}` not interpretable", rule="CLASSSEL")
@@ -290,6 +317,8 @@ def check_classsel(ctx: Ctx):
                         d = it2.env["droplet"]
                     amp = d.fields.get("amplitudes")
                     n_amp = amp[1] if isinstance(amp, tuple) and amp[0] == "zeros" else (None if amp is None else "?")
+                    if n_amp is TOP:
+                        n_amp = "<data-dependent>"
                     w = d.fields.get("interface_width")
                     got = (d.cls, n_amp, w)
                     # constructible: fields ⊆ constructor params of the class
@@ -319,6 +348,31 @@ def check_classsel(ctx: Ctx):
     else:
         ctx.hold("CLASSSEL", site, (fi, lp), f"all {n_cfg} configurations yield the class, amplitude count and carried width the request implies")
     ctx.exhaustive = True
+    # every result passes the class selection: no return of locate_droplets hands out the candidates (or anything derived
+    # from them) without going through the conversion loop
+    cand_st = st
+    esc = []
+    for rn in fv.return_nodes():
+        r = rn.stmt
+        if r.value is None or cand_st is None or not fv.dominates(cand_st, r):
+            continue
+        if fv.dominates(lp, r):
+            continue
+        val = fv.expand(r.value, r, stop=(cand, field), allow_mutated=True)
+        if cand in names_in(val):
+            esc.append(r)
+    ctx.decide(not esc, "CLASSSEL", site + ":all-paths", (fi, esc[0]) if esc else (fi, lp), "every path that returns located droplets passes the class-selection loop",
+               f"`{U(esc[0])[:70] if esc else ''}` returns the candidates without passing the class selection: on that path a supplied interface width / requested modes are ignored and plain SphericalDroplets are returned")
+    # refine_droplet: no return before the promotion
+    rfv = view(m, rf)
+    early = []
+    if len(prom) == 1:
+        for rn in rfv.return_nodes():
+            r = rn.stmt
+            if r.value is not None and not rfv.dominates(prom[0], r):
+                early.append(r)
+    ctx.decide(not early, "CLASSSEL", rf.qualname + ":all-paths", (rf, early[0]) if early else rf, "every return of refine_droplet is preceded by the promotion to DiffuseDroplet",
+               f"`{U(early[0])[:60] if early else ''}` returns before the candidate is promoted: with refinement on, such a droplet stays a SphericalDroplet and the results of one call no longer share one class")
     # promotion shape
     okp = len(prom) == 1 and U(prom[0].test) == "not isinstance(droplet, DiffuseDroplet)"
     ctx.decide(okp, "CLASSSEL", rf.qualname + ":promotion", (rf, prom[0]) if prom else rf, "refinement promotes exactly the non-diffuse candidates", "refine_droplet does not promote exactly the non-DiffuseDroplet candidates")
@@ -361,7 +415,7 @@ def check(ctx: Ctx):
     nonetest.check(ctx, setter, setter.params[1], "the interface width being set")
     # Emulsion.data forms one table: covered by the uniform-class rule above and io.check_one_class
     io.check_one_class(ctx)
-    ctx.expect("CLASSSEL", 4)
+    ctx.expect("CLASSSEL", 6)
     ctx.expect("SLICE", 1)
     ctx.expect("LOCATORS", 5)
     ctx.expect("LAYOUT", 5)
